@@ -34,6 +34,24 @@ theorem evAt_take (log : Log) (k i : Nat) (h : i < k) : evAt (log.take k) i = ev
 theorem sendAt_take (log : Log) (k i : Nat) (h : i < k) : sendAt (log.take k) i = sendAt log i := by
   simp [sendAt, evAt_take log k i h]
 
+/-- replies of fixed length only: `getFullReply` never asks for more (no `more` event in the log) -/
+def NoMore (log : Log) : Prop := ∀ m x n, evAt log m ≠ some (.more x n)
+
+theorem noMore_restrict {log : Log} {e : TEv} (h : NoMore (log ++ [e])) : NoMore log ∧ ∀ x n, e.ev ≠ .more x n := by
+  refine ⟨fun m x n hm => ?_, fun x n he => ?_⟩
+  · have hlt : m < log.length := by
+      false_or_by_contra; rename_i hn
+      rw [evAt_none log m (by omega)] at hm; simp at hm
+    exact h m x n (by rw [evAt_append_lt log e m hlt]; exact hm)
+  · exact h log.length x n (by rw [evAt_append_eq, he])
+
+theorem noMore_take {log : Log} (h : NoMore log) (k : Nat) : NoMore (log.take k) := by
+  intro m x n hm
+  have hlt : m < k := by
+    false_or_by_contra; rename_i hn
+    rw [evAt_none (log.take k) m (by simp; omega)] at hm; simp at hm
+  exact h m x n (by rw [← evAt_take log k m hlt]; exact hm)
+
 /-- no return of `c` after position i -/
 def NoRetAfter (log : Log) (c i : Nat) : Prop := ∀ m, i < m → m < log.length → isRetOf c (evAt log m) = false
 
@@ -43,17 +61,25 @@ structure Inv (log : Log) (s : State) : Prop where
   li3 : s.owner = none → s.depth = 0
   hk : ∀ c, heldOk (s.callers c)
   tk : ∀ c, todoOk (s.callers c)
+  so : ∀ c, sentOk (s.callers c)
+  ni : s.cfg.ident = [] → ∀ c, identFree (s.callers c)
+  nx : NoMore log → ∀ c, (s.callers c).pc ≠ .readX
+  sb : ∀ c i, sendAt log i = some c → NoRetAfter log c i → 0 < (s.callers c).sent
   b : ∀ c i, sendAt log i = some c → NoRetAfter log c i → (s.callers c).held = 0 → (s.callers c).pc = .done
   cc : ∀ c i j c', sendAt log i = some c → NoRetAfter log c i → 0 < (s.callers c).held → i < j →
         sendAt log j = some c' → c' = c
 
 theorem inv_init (cfg : Cfg) (cbs : List Nat) : Inv [] { cfg := cfg, cbsReg := cbs } := by
-  refine ⟨?_, ?_, ?_, ?_, ?_, ?_, ?_⟩
+  refine ⟨?_, ?_, ?_, ?_, ?_, ?_, ?_, ?_, ?_, ?_, ?_⟩
   · intro c h; simp at h
   · intro c h; simp at h
   · intro _; rfl
   · intro c; simp [heldOk]
   · intro c; simp [todoOk]
+  · intro c; simp [sentOk, multiPc, prePc]
+  · intro _ c; exact ⟨rfl, rfl⟩
+  · intro _ c; simp
+  · intro c i h; simp [sendAt, evAt] at h
   · intro c i h; simp [sendAt, evAt] at h
   · intro c i j c' h; simp [sendAt, evAt] at h
 
@@ -64,14 +90,28 @@ theorem noRetAfter_restrict {log : Log} {e : TEv} {c i : Nat} (h : NoRetAfter (l
 
 /-- an event that leaves callers and lock alone (device events) -/
 theorem inv_env {log : Log} {s s' : State} (e : TEv) (hi : Inv log s)
-    (hc : s'.callers = s.callers) (ho : s'.owner = s.owner) (hd : s'.depth = s.depth)
+    (hc : s'.callers = s.callers) (ho : s'.owner = s.owner) (hd : s'.depth = s.depth) (hcf : s'.cfg = s.cfg)
     (hs : sendAt (log ++ [e]) log.length = none) : Inv (log ++ [e]) s' := by
-  refine ⟨?_, ?_, ?_, ?_, ?_, ?_, ?_⟩
+  refine ⟨?_, ?_, ?_, ?_, ?_, ?_, ?_, ?_, ?_, ?_, ?_⟩
   · intro c h; rw [hc] at h; rw [ho]; exact hi.li1 c h
   · intro c h; rw [ho] at h; rw [hd, hc]; exact hi.li2 c h
   · intro h; rw [ho] at h; rw [hd]; exact hi.li3 h
   · intro c; rw [hc]; exact hi.hk c
   · intro c; rw [hc]; exact hi.tk c
+  · intro c; rw [hc]; exact hi.so c
+  · intro hid c; rw [hc]; rw [hcf] at hid; exact hi.ni hid c
+  · intro hnm c; rw [hc]; exact hi.nx (noMore_restrict hnm).1 c
+  · intro c i h1 h2
+    have hlt : i < log.length := by
+      have := sendAt_lt_length _ _ _ h1
+      simp at this
+      rcases Nat.lt_or_ge i log.length with h | h
+      · exact h
+      · have : i = log.length := by omega
+        subst this; rw [hs] at h1; simp at h1
+    rw [sendAt_append_lt log e i hlt] at h1
+    rw [hc]
+    exact hi.sb c i h1 (noRetAfter_restrict h2)
   · intro c i h1 h2 h3
     have hlt : i < log.length := by
       have := sendAt_lt_length _ _ _ h1
@@ -124,8 +164,9 @@ theorem inv_caller {log : Log} {s s' : State} (e : TEv) (c0 : Nat) (hw : e.ev.wh
   have hlock := step_lock s s' e.t c0 e.ev h
   have hk' := step_heldOk s s' e.t c0 e.ev h (hi.hk c0)
   have tk' := step_todoOk s s' e.t c0 e.ev h (hi.tk c0)
+  have so' := step_sentOk s s' e.t c0 e.ev h (hi.so c0) (hi.tk c0)
   have hoth : ∀ x, x ≠ c0 → s'.callers x = s.callers x := step_others s s' e.t c0 e.ev h
-  refine ⟨?_, ?_, ?_, ?_, ?_, ?_, ?_⟩
+  refine ⟨?_, ?_, ?_, ?_, ?_, ?_, ?_, ?_, ?_, ?_, ?_⟩
   · -- li1
     intro c hc
     cases hlock with
@@ -191,6 +232,54 @@ theorem inv_caller {log : Log} {s s' : State} (e : TEv) (c0 : Nat) (hw : e.ev.wh
     by_cases hcc : c = c0
     · subst hcc; exact tk'
     · rw [hoth c hcc]; exact hi.tk c
+  · intro c
+    by_cases hcc : c = c0
+    · subst hcc; exact so'
+    · rw [hoth c hcc]; exact hi.so c
+  · intro hid c
+    rw [step_cfg s s' e.t c0 e.ev h] at hid
+    by_cases hcc : c = c0
+    · subst hcc; exact step_identFree s s' e.t c e.ev h hid (hi.ni hid c)
+    · rw [hoth c hcc]; exact hi.ni hid c
+  · intro hnm c
+    obtain ⟨hnm0, hne⟩ := noMore_restrict hnm
+    by_cases hcc : c = c0
+    · subst hcc
+      intro hp
+      rcases step_enter_readX s s' e.t c e.ev h hp with hold | ⟨x, n, hx⟩
+      · exact hi.nx hnm0 c hold
+      · exact hne x n hx
+    · rw [hoth c hcc]; exact hi.nx hnm0 c
+  · -- sb
+    intro c i h1 h2
+    have hile := sendAt_lt_length _ _ _ h1
+    simp only [List.length_append, List.length_singleton] at hile
+    rcases Nat.lt_or_ge i log.length with hlt | hge
+    · rw [sendAt_append_lt log e i hlt] at h1
+      have hnr := noRetAfter_restrict h2
+      have hold := hi.sb c i h1 hnr
+      by_cases hcc : c = c0
+      · subst hcc
+        have hnc : ∀ x kd rq, e.ev ≠ .call x kd rq := by
+          intro x kd rq hev
+          rw [hev] at h
+          have hidle := step_call_idle s s' e.t c x kd rq h
+          have hk := hi.hk c
+          rcases Nat.eq_zero_or_pos (s.callers c).held with h0 | hpos
+          · have := hi.b c i h1 hnr h0
+            rw [hidle] at this; simp at this
+          · simp only [heldOk, hidle] at hk; omega
+        have := step_sent_mono s s' e.t c e.ev h hnc
+        omega
+      · rw [hoth c hcc]; exact hold
+    · have : i = log.length := by omega
+      subst this
+      obtain ⟨hc, _, _, _⟩ := send_last e c0 hw hi h c h1
+      subst hc
+      simp only [sendAt, evAt_append_eq] at h1
+      cases hev : e.ev <;> simp only [hev] at h1 <;> try (simp at h1)
+      rw [hev] at h
+      exact step_send_sent s s' e.t c _ _ _ _ h
   · -- b
     intro c i h1 h2 h3
     have hile := sendAt_lt_length _ _ _ h1
@@ -212,7 +301,7 @@ theorem inv_caller {log : Log} {s s' : State} (e : TEv) (c0 : Nat) (hw : e.ev.wh
           · exact hd'
         · cases hlock with
           | acq _ _ _ _ hh => omega
-          | rel hr _ _ _ _ => exact step_rel_done s s' e.t c e.ev h (hi.hk c) (hi.tk c) hr h3
+          | rel hr _ _ _ _ => exact step_rel_done s s' e.t c e.ev h (hi.hk c) (hi.tk c) (hi.so c) (hi.sb c i h1 hnr) hr h3
           | keep _ _ _ _ hh => omega
       · rw [hoth c hcc] at h3 ⊢
         exact hi.b c i h1 hnr h3
@@ -259,7 +348,7 @@ theorem inv_caller {log : Log} {s s' : State} (e : TEv) (c0 : Nat) (hw : e.ev.wh
 
 
 theorem inv_clock {log : Log} {s : State} (t : Nat) (hi : Inv log s) : Inv log { s with clock := t } :=
-  ⟨hi.li1, hi.li2, hi.li3, hi.hk, hi.tk, hi.b, hi.cc⟩
+  ⟨hi.li1, hi.li2, hi.li3, hi.hk, hi.tk, hi.so, hi.ni, hi.nx, hi.sb, hi.b, hi.cc⟩
 
 theorem sendAt_last_not_send {log : Log} {e : TEv} (h : ∀ c a b d, e.ev ≠ .send c a b d) :
     sendAt (log ++ [e]) log.length = none := by
@@ -295,12 +384,12 @@ theorem inv_step {log : Log} {s s' : State} (e : TEv) (hi : Inv log s) (h : step
         split at h
         · split at h
           · simp at h
-          · simp only [Option.some.injEq] at h; subst h; exact inv_env e hi1 rfl rfl rfl hs
-        · simp only [Option.some.injEq] at h; subst h; exact inv_env e hi1 rfl rfl rfl hs
+          · simp only [Option.some.injEq] at h; subst h; exact inv_env e hi1 rfl rfl rfl rfl hs
+        · simp only [Option.some.injEq] at h; subst h; exact inv_env e hi1 rfl rfl rfl rfl hs
       · -- devclose
-        split at h <;> (simp only [Option.some.injEq] at h; subst h; exact inv_env e hi1 rfl rfl rfl hs)
+        split at h <;> (simp only [Option.some.injEq] at h; subst h; exact inv_env e hi1 rfl rfl rfl rfl hs)
       · -- dopoll
-        simp only [Option.some.injEq] at h; subst h; exact inv_env e hi1 rfl rfl rfl hs
+        simp only [Option.some.injEq] at h; subst h; exact inv_env e hi1 rfl rfl rfl rfl hs
 
 theorem inv_exec_gen : ∀ (evs pre : List TEv) (s0 s : State), Inv pre s0 → exec s0 evs = some s → Inv (pre ++ evs) s
   | [], pre, s0, s, hi, h => by simp [exec] at h; subst h; simpa using hi
